@@ -1,10 +1,10 @@
 (* Source-level equivalence of Cython kernels and the pure-Python routines they replace: both sides are regenerated
    from the current sources (Gen/Kernels.v from cmoment_tensor_conversion.pyx, Gen/Convert.v from
    moment_tensor_conversion.py) and proved equal over the reals. *)
-From Coq Require Import Reals Lra Sumbool.
-From MTV.Lib Require Import Base Trig Redraw.
+From Coq Require Import Reals Lra Sumbool Nsatz.
+From MTV.Lib Require Import Base Trig Redraw Linalg.
 From MTV.Gen Require Import Convert Kernels.
-From MTV.Proofs Require Import Conv_lune Conv_hudson Conv_planes.
+From MTV.Proofs Require Import Conv_lune Conv_hudson Conv_planes Conv_tensor.
 Open Scope R_scope.
 
 (* ---- Hudson u, v: identical branch structure (slot 5 carries k then u, slot 6 carries tau then v) *)
@@ -68,4 +68,69 @@ Proof.
   destruct (Rlt_dec S 0) as [Neg|Pos].
   - rewrite rmod_neg by lra. reflexivity.
   - rewrite rmod_small by lra. reflexivity.
+Qed.
+
+(* ---- Tape parameters -> six-vector: the C kernel (explicit axes, sqrt(1-h^2), no final normalisation) and the Python
+   routine (GD_E, SDR_TNP with dip = acos h, L D L^t, MT33_MT6) *)
+Lemma Tape_MT6_closed g d k h s :
+  Tape_MT6 g d k h s =
+  (let '(m00, m01, m02, m10, m11, m12, m20, m21, m22) := rebuild (GD_E g d) (SDR_TNP k (acos h) s) in
+   (m00, m11, m22, sqrt 2 * m01, sqrt 2 * m02, sqrt 2 * m12)).
+Proof.
+  rewrite Tape_MT6_struct. pose proof (Tape_MT33_symmetric_unit g d k h s) as H.
+  rewrite Tape_MT33_struct in *.
+  destruct (rebuild (GD_E g d) (SDR_TNP k (acos h) s)) as [[[[[[[[m00 m01] m02] m10] m11] m12] m20] m21] m22].
+  destruct H as (_ & _ & _ & HF).
+  unfold MT33_MT6. cbv zeta. pose proof sqrt2_sq as S.
+  match goal with |- context [sqrt ?e] =>
+    lazymatch e with 2 => fail | _ => replace e with 1 by (rewrite <- HF; nra) end end.
+  rewrite sqrt_1. unfold Rdiv. rewrite Rinv_1, !Rmult_1_r. reflexivity.
+Qed.
+
+Definition cform (L1 L2 L3 T1 T2 T3 N1 N2 N3 P1 P2 P3 : R) : R * R * R * R * R * R :=
+  (L1 * T1 * T1 + L2 * N1 * N1 + L3 * P1 * P1, L1 * T2 * T2 + L2 * N2 * N2 + L3 * P2 * P2,
+   L1 * T3 * T3 + L2 * N3 * N3 + L3 * P3 * P3, sqrt 2 * (L1 * T1 * T2 + L2 * N1 * N2 + L3 * P1 * P2),
+   sqrt 2 * (L1 * T1 * T3 + L2 * N1 * N3 + L3 * P1 * P3), sqrt 2 * (L1 * T2 * T3 + L2 * N2 * N3 + L3 * P2 * P3)).
+
+Lemma rebuild_cform e0 e1 e2 t0 t1 t2 b0 b1 b2 p0 p1 p2 :
+  (let '(m00, m01, m02, m10, m11, m12, m20, m21, m22) := rebuild (e0, e1, e2) (t0, t1, t2, b0, b1, b2, p0, p1, p2) in
+   (m00, m11, m22, sqrt 2 * m01, sqrt 2 * m02, sqrt 2 * m12)) = cform e0 e1 e2 t0 t1 t2 (- b0) (- b1) (- b2) p0 p1 p2.
+Proof. unfold rebuild, cform. repeat match goal with |- (_, _) = (_, _) => apply f_equal2 end; ring. Qed.
+
+Lemma cTape_cform g d k h s :
+  cTape_MT6 g d k h s =
+  (let ck := cos k in let cs := cos s in let sk := sin k in let ss := sin s in let sh := sqrt (1 - h * h) in
+   let NT := sqrt ((ck*cs+sk*h*ss-sk*sh)*(ck*cs+sk*h*ss-sk*sh)+(sk*cs-ck*h*ss+ck*sh)*(sk*cs-ck*h*ss+ck*sh)+(-sh*ss-h)*(-sh*ss-h)) in
+   let NP := sqrt ((ck*cs+sk*h*ss+sk*sh)*(ck*cs+sk*h*ss+sk*sh)+(sk*cs-ck*h*ss-ck*sh)*(sk*cs-ck*h*ss-ck*sh)+(-sh*ss+h)*(-sh*ss+h)) in
+   let T1 := (ck*cs+sk*h*ss-sk*sh)/NT in let T2 := (sk*cs-ck*h*ss+ck*sh)/NT in let T3 := (-sh*ss-h)/NT in
+   let P1 := (ck*cs+sk*h*ss+sk*sh)/NP in let P2 := (sk*cs-ck*h*ss-ck*sh)/NP in let P3 := (-sh*ss+h)/NP in
+   cform ((sqrt 3*cos g*cos d-sin g*cos d+sqrt 2*sin d)/sqrt 6) ((2*sin g*cos d+sqrt 2*sin d)/sqrt 6)
+         ((-sqrt 3*cos g*cos d-sin g*cos d+sqrt 2*sin d)/sqrt 6)
+         T1 T2 T3 (T2*P3-P2*T3) (-T1*P3+P1*T3) (T1*P2-T2*P1) P1 P2 P3).
+Proof. reflexivity. Qed.
+
+Theorem cTape_MT6_equiv g d k h s : -1 <= h <= 1 -> cTape_MT6 g d k h s = Tape_MT6 g d k h s.
+Proof.
+  intros Hh. rewrite cTape_cform, Tape_MT6_closed, SDR_TNP_closed_form.
+  unfold GD_E, slipv, normv. cbv zeta.
+  rewrite rebuild_cform.
+  rewrite (cos_acos h Hh). rewrite (sin_acos h Hh). try unfold Rsqr.
+  rewrite !sin_shift, !cos_shift.
+  assert (Hsh : sqrt (1 - h * h) * sqrt (1 - h * h) = 1 - h * h) by (apply sqrt_sqrt; nra).
+  set (sh := sqrt (1 - h * h)) in *. clearbody sh.
+  pose proof (sin2_cos2 k) as Tk. pose proof (sin2_cos2 s) as Ts. unfold Rsqr in Tk, Ts.
+  (* the two normalisations are sqrt 2 *)
+  replace ((cos k * cos s + sin k * h * sin s - sin k * sh) * (cos k * cos s + sin k * h * sin s - sin k * sh) +
+           (sin k * cos s - cos k * h * sin s + cos k * sh) * (sin k * cos s - cos k * h * sin s + cos k * sh) +
+           (- sh * sin s - h) * (- sh * sin s - h)) with 2
+    by (generalize dependent (cos k); generalize dependent (sin k); generalize dependent (cos s); generalize dependent (sin s); intros; nsatz).
+  replace ((cos k * cos s + sin k * h * sin s + sin k * sh) * (cos k * cos s + sin k * h * sin s + sin k * sh) +
+           (sin k * cos s - cos k * h * sin s - cos k * sh) * (sin k * cos s - cos k * h * sin s - cos k * sh) +
+           (- sh * sin s + h) * (- sh * sin s + h)) with 2
+    by (generalize dependent (cos k); generalize dependent (sin k); generalize dependent (cos s); generalize dependent (sin s); intros; nsatz).
+  assert (P2 : 0 < sqrt 2) by exact sqrt2_pos.
+  assert (P3 : 0 < sqrt 3) by (apply sqrt_lt_R0; lra).
+  assert (P6 : 0 < sqrt 6) by (apply sqrt_lt_R0; lra).
+  unfold cform.
+  repeat match goal with |- (_, _) = (_, _) => apply f_equal2 end; field; lra.
 Qed.
